@@ -1,6 +1,7 @@
 (* C01 — value round trip: parsing what was dumped gives the value back. *)
 From Coq Require Import Lia.
 From VF Require Import Model.Writer Proofs.CodecCorrect Proofs.SizeProps Proofs.RoundTrip Proofs.ValueRoundTrip Proofs.ValueRoundTripDyn Proofs.AlignedSize Proofs.AlignedRoundTrip Proofs.BitsCorrect Proofs.BitRun Proofs.BitStruct Proofs.BitMixed Model.Compiler Gen.GeneratedOk.
+From VF Require Proofs.BitLayout.
 From VF Require Proofs.CompilerProps Proofs.CompiledRoundTrip Proofs.CompilerGaps Proofs.CompilerStatic Proofs.CompiledAligned.
 Open Scope string_scope. Open Scope list_scope. Open Scope Z_scope.
 
@@ -76,6 +77,11 @@ Proof. exact CompiledRoundTrip.compiled_mixed_round_trip. Qed.
 (* writing never alters a number: a value that does not fit the width is rejected, a value that fits decodes to itself *)
 Theorem out_of_range_is_rejected : forall e n signed v, fits n signed v = false -> int_to_bytes e n signed v = Err ERange.
 Proof. exact int_reject. Qed.
+(* ... and a bit field: a value that is negative or needs more bits than the field has is never written - BitBuffer.write fails whatever the state
+   of the unit, so it cannot change the bits of a neighbouring field *)
+Theorem bit_field_value_that_does_not_fit_is_rejected : forall c wb storage data bits,
+  (data < 0 \/ 2 ^ bits <= data) -> 0 <= bits -> exists er, wb_write c wb storage data bits = Err er.
+Proof. exact BitLayout.bit_field_overflow_rejected. Qed.
 Theorem in_range_is_exact : forall e n signed v bs, (e = LE \/ e = BE) ->
   int_to_bytes e n signed v = Ok bs -> length bs = n /\ Bytes bs /\ int_from_bytes e signed bs = v.
 Proof. exact int_roundtrip. Qed.
@@ -103,6 +109,7 @@ Print Assumptions mixed_bit_field_structure_round_trip.
 Print Assumptions compiled_value_round_trip.
 Print Assumptions compiled_mixed_bit_field_structure_round_trip.
 Print Assumptions out_of_range_is_rejected.
+Print Assumptions bit_field_value_that_does_not_fit_is_rejected.
 
 (* non-vacuity *)
 Definition ex_cfg := mkCfg ">" (PInt 4 false true) 4 [] [].
